@@ -411,6 +411,39 @@ func r4bits(c *core.Ctx) {
 				}
 			}
 		}
+		// widths beyond a machine word: parseInteger hands getBitsValue 8*n bits for a length octet n up to
+		// 255 taken from the input; whatever the value then is, the reader must not panic
+		if bad == "" {
+		wide:
+			for _, off := range []int{0, 3, 7} {
+				for _, n := range []int{65, 72, 80, 128, 256, 1024, 2040} {
+					if name == "GetBitString" && n > 256 {
+						continue
+					}
+					mem := core.NewMem()
+					nSrc := (off + n + 7) / 8
+					symOctets(mem, "src", nSrc, 0)
+					ex := core.NewExec()
+					ex.OnCall = traceOpaque
+					ex.Bounds = true
+					ex.MaxSteps = 4000000
+					args := []core.AVal{{K: core.ASlice, Path: "src", Lo: 0, Len: nSrc, NonNil: true}, {K: core.AInt, Bits: core.ConstBits(uint64(off), 64)}, {K: core.AInt, Bits: core.ConstBits(uint64(n), 64)}}
+					outs, err := ex.Run(fn, args, mem)
+					if err != nil || len(ex.Unsound) > 0 {
+						c.SoftUndecided("%s: %s could not be folded for offset %d, %d bits (%v %v)", R, name, off, n, err, ex.Unsound)
+						bad = "-"
+						break wide
+					}
+					cases++
+					for _, o := range outs {
+						if o.Panicked {
+							bad = fmt.Sprintf("offset %d, %d bits (a length octet of %d from the input): %s panics (%s)", off, n, n/8, name, lastCond(o))
+							break wide
+						}
+					}
+				}
+			}
+		}
 		if bad == "-" {
 			r4bitsResult[c] = false
 			continue
